@@ -440,6 +440,8 @@ func runC04(c *Ctx) {
 	ruleArgumentTypeAsRequired(c, "C04.17")
 	ruleTypeExprsNotShared(c, "C04.18")
 	ruleAliasSpelledAsDeclared(c, "C04.19")
+	ruleAsyncFlag(c, "C04.20")
+	ruleChanDirMapping(c, "C04.21", genPkg)
 	ruleEllipsisOnlyLast(c, "C04.6")
 
 	// C04.10 user identifiers reach the allocator (shared with C12): otherwise a generated local can shadow a user name
